@@ -1,5 +1,6 @@
 import XeofsModel.History
 import XeofsModel.History2
+import XeofsModel.Generated.Facts
 /-!
 # C14 — a model's answers depend only on its last fit, never on call history
 
@@ -86,5 +87,10 @@ example : (run { good with miSeparate := false } init [.fit 1 1, .transform 7, .
 example : (run { good with addCopies := false } init [.fit 1 1, .rotatorFit 5, .query]).2.getLast? = some [1, 1, 1, 1, 1, 5] := by decide
 example : (run { good with fitResetsSorted := false } init [.fit 1 1, .fit 2 1, .query]).2.getLast? = some [2, 2, 1, 2, 2] := by decide
 example : (run good init [.fit 1 1, .transform 7, .rotatorFit 5, .fit 2 2, .serialize, .query]).2.getLast? = some (freshProv 2 2) := by decide
+
+/-- source obligations: `Sanitizer.transform` writes nothing of the fitted state except the (computed) validity mask, and the
+rotators never write into (views of) the model's arrays in place -/
+theorem src_transform_and_rotators_read_only :
+    Gen.sanitizerTransformWrites = ["self.is_valid_feature"] ∧ Gen.rotatorFitInPlaceOps = [] := by decide
 
 end C14
